@@ -69,6 +69,80 @@ def _module_names(tree):
     return out
 
 
+def _loop_only_bindings(fnode):
+    """a local whose every binding sits in the body of a loop (or is the loop
+    variable) and that is read behind that loop, outside it: when the loop
+    runs zero times the read raises UnboundLocalError (the text it iterates
+    over is empty: an empty program, a cart without that section)"""
+    out = []
+    params = _bound_in(ast.parse('def f(): pass').body[0])
+    a = fnode.args
+    params = {x.arg for x in a.args + a.kwonlyargs + a.posonlyargs}
+    if a.vararg:
+        params.add(a.vararg.arg)
+    if a.kwarg:
+        params.add(a.kwarg.arg)
+    loops = [n for n in ast.walk(fnode) if isinstance(n, (ast.For,
+                                                           ast.While))]
+    if not loops:
+        return out
+    inside = {}
+    for lp in loops:
+        ids = set()
+        for part in lp.body + lp.orelse + ([lp.target] if isinstance(
+                lp, ast.For) else []):
+            for x in ast.walk(part):
+                ids.add(id(x))
+        inside[id(lp)] = ids
+    stores, loads = {}, {}
+    for n in ast.walk(fnode):
+        if isinstance(n, ast.Name):
+            (stores if isinstance(n.ctx, (ast.Store, ast.Del))
+             else loads).setdefault(n.id, []).append(n)
+        elif isinstance(n, (ast.Global, ast.Nonlocal)):
+            for nm in n.names:
+                params.add(nm)
+        elif isinstance(n, (ast.Import, ast.ImportFrom)):
+            for al in n.names:
+                params.add((al.asname or al.name).split('.')[0])
+        elif isinstance(n, ast.ExceptHandler) and n.name:
+            params.add(n.name)
+        elif isinstance(n, (ast.ListComp, ast.SetComp, ast.DictComp,
+                            ast.GeneratorExp)):
+            for g in n.generators:
+                for x in ast.walk(g.target):
+                    if isinstance(x, ast.Name):
+                        params.add(x.id)     # comprehension scope: skip
+    for name, sts in stores.items():
+        if name in params or name not in loads:
+            continue
+        # one loop that contains every binding
+        holder = [lp for lp in loops
+                  if all(id(s_) in inside[id(lp)] for s_ in sts)]
+        if not holder:
+            continue
+        outer = max(holder, key=lambda lp: len(inside[id(lp)]))
+        if isinstance(outer, ast.While) and isinstance(
+                outer.test, ast.Constant) and outer.test.value:
+            continue                # `while True`: the body runs
+        if isinstance(outer, ast.For) and isinstance(
+                outer.iter, (ast.Tuple, ast.List)) and outer.iter.elts:
+            continue                # a literal, non-empty sequence
+        for ld in loads[name]:
+            if id(ld) in inside[id(outer)]:
+                continue
+            if getattr(ld, 'lineno', 0) <= getattr(outer, 'end_lineno', 0):
+                continue
+            # the test of a `while` that contains the binding is evaluated
+            # before the body: also a read before any binding
+            out.append('`{}` (line {}) is bound only inside the loop at '
+                       'line {} and read behind it: UnboundLocalError when '
+                       'the loop runs zero times'.format(
+                           name, ld.lineno, outer.lineno))
+            break
+    return out
+
+
 def rule_names(ctx, res, prop):
     rule = 'R-{}-names'.format(prop)
     model = ctx.model
@@ -114,6 +188,13 @@ def rule_names(ctx, res, prop):
                             '`{}` (line {}): index {} of a {}-element '
                             'constant: IndexError when that statement '
                             'runs'.format(ast.unparse(n), n.lineno, k, ln))
+            maybe = _loop_only_bindings(f.node)
+            if maybe:
+                # path-insensitive (a guard may make the loop run): a
+                # shape-level finding, subject to the trust gate
+                res.violation(rule, f.qual,
+                              'no local is bound only inside a loop and '
+                              'read behind it', '; '.join(maybe[:2]), f.loc)
             res.check(not problems, rule, f.qual,
                       'every name the function reads is bound somewhere; '
                       'constant subscripts are in range', '',
